@@ -634,7 +634,7 @@ func (in *Interp) get(fr *Frame, v ssa.Value) Value {
 	case *ssa.Const:
 		return in.constVal(x)
 	case *ssa.Global:
-		return PtrV{in.global(x)}
+		return PtrV{loc: in.global(x)}
 	case *ssa.Function:
 		return FuncV{fn: x}
 	case *ssa.Builtin:
@@ -832,7 +832,7 @@ func (in *Interp) step(fr *Frame, block *ssa.BasicBlock, ins ssa.Instruction, pr
 func (in *Interp) eval(fr *Frame, v ssa.Value) Value {
 	switch x := v.(type) {
 	case *ssa.Alloc:
-		return PtrV{newLoc(zero(x.Type().(*types.Pointer).Elem()))}
+		return PtrV{loc: newLoc(zero(x.Type().(*types.Pointer).Elem()))}
 	case *ssa.BinOp:
 		return in.binop(x.Op, in.get(fr, x.X), in.get(fr, x.Y), x.X.Type(), x.Y.Type())
 	case *ssa.UnOp:
@@ -897,7 +897,7 @@ func (in *Interp) eval(fr *Frame, v ssa.Value) Value {
 		if p.loc == nil {
 			in.abort("panic", "nil field access in "+fr.fn.String())
 		}
-		return PtrV{p.loc.sub[x.Field]}
+		return PtrV{loc: p.loc.sub[x.Field]}
 	case *ssa.Field:
 		return in.get(fr, x.X).(StructV).f[x.Field]
 	case *ssa.IndexAddr:
@@ -909,10 +909,10 @@ func (in *Interp) eval(fr *Frame, v ssa.Value) Value {
 				in.abort("panic", "nil array pointer")
 			}
 			i := in.index(idx, len(b.loc.sub), x.Index.Type(), fr)
-			return PtrV{b.loc.sub[i]}
+			return PtrV{loc: b.loc.sub[i], arr: b.loc.sub, idx: i}
 		case SliceV:
 			i := in.index(idx, b.n, x.Index.Type(), fr)
-			return PtrV{b.arr[b.off+i]}
+			return PtrV{loc: b.arr[b.off+i], arr: b.arr[:b.off+b.cp], idx: b.off + i}
 		}
 		in.abort("unsupported", fmt.Sprintf("indexaddr base %T", base))
 	case *ssa.Index:
@@ -951,7 +951,7 @@ func (in *Interp) eval(fr *Frame, v ssa.Value) Value {
 		if s.n < n {
 			in.abort("panic", "slice to array pointer: length too small in "+fr.fn.String())
 		}
-		return PtrV{&Loc{sub: s.arr[s.off : s.off+n]}}
+		return PtrV{loc: &Loc{sub: s.arr[s.off : s.off+n]}}
 	case *ssa.Extract:
 		return in.get(fr, x.Tuple).(TupleV).e[x.Index]
 	case *ssa.TypeAssert:
